@@ -468,7 +468,9 @@ def real_cases(chk):
                                     ("flow", 200), ("analytic", 500), ("rejection", 20)]):
         out.append({"kind": "real", "proposal": prop, "nlive": nl, "seed": 100 + i + chk.seed,
                     "stopping": 0.5 if nl <= 100 else 1.0, "max_epochs": 20, "maximum_uninformed": nl,
-                    "full_every": 50, "dims": 2 if i % 2 == 0 else 3})
+                    # the number of rejected draws per iteration grows like 1/X: cap the large runs
+                    "max_iteration": None if nl <= 100 else 3 * nl,
+                    "full_every": 50 if nl <= 100 else 150, "dims": 2 if i % 2 == 0 else 3})
     return out
 
 
